@@ -740,6 +740,110 @@ class Emitter:
 
     # ------------------------------------------------------------------ statements
     def S(self, n, ind, fn):
+        # statements that a model hoists out of an expression (the loop of std::find_if / any_of ...) are emitted just before the
+        # statement the expression belongs to; only where that keeps the order of evaluation (see hoist())
+        k0 = n['kind']
+        if k0 in ('DeclStmt', 'ReturnStmt', 'IfStmt') or k0.endswith('Expr') or k0.endswith('Operator'):
+            saved = getattr(self, 'pre_stmts', None)
+            self.pre_stmts = []
+            self.cur_stmt = n
+            self.cur_fn_stmt = fn
+            self.cur_ind = ind
+            try:
+                text = self.S0(n, ind, fn)
+                pre = ''.join(self.pre_stmts)
+            finally:
+                self.pre_stmts = saved
+            if self.opts.get('exc_model'):
+                text += self.exc_check(n, ind, fn)
+            return pre + text
+        if self.opts.get('exc_model') and k0 in ('ForStmt', 'WhileStmt', 'DoStmt', 'CXXForRangeStmt'):
+            hdr = [c for c in (n.get('inner') or [])[:-1] if isinstance(c, dict) and c]
+            if any(self.contains_throwing_call(c) for c in hdr):
+                raise ExtractError('L-throw: call in a loop header')
+        saved = getattr(self, 'pre_stmts', None)
+        self.pre_stmts = None      # loop headers etc.: no hoisting target
+        try:
+            return self.S0(n, ind, fn)
+        finally:
+            self.pre_stmts = saved
+
+    # ---- L-throw (opt exc_model): an abort surfaced as an exception.  A callee that throws is modelled as returning with the ghost
+    # flag g_exc set (leaf contracts decide who may throw); after every statement that contains a call the function leaves at once
+    # if the flag is set, running the destructors of the guards constructed so far (what unwinding does) and returning an arbitrary
+    # value.  The rest of an expression after a throwing call is still evaluated (on arbitrary values): calls in conditions of
+    # if / loops are therefore refused (fail closed), so no branch is taken on the strength of a call that threw.
+    def is_call_that_may_throw(self, x):
+        if x.get('kind') not in ('CallExpr', 'CXXMemberCallExpr', 'CXXOperatorCallExpr'):
+            return False
+        c0 = inner(x)[0] if inner(x) else {}
+        while c0.get('kind') in ('ImplicitCastExpr', 'ParenExpr') and inner(c0):
+            c0 = inner(c0)[0]
+        rd = c0.get('referencedDecl') or ({'id': c0.get('referencedMemberDecl')} if c0.get('referencedMemberDecl') else None)
+        if rd is None:
+            return True        # call through a pointer / callable object
+        return rd.get('id') in self.tu.funcs
+
+    def contains_throwing_call(self, n):
+        if n.get('kind') == 'LambdaExpr':
+            return False
+        if self.is_call_that_may_throw(n):
+            return True
+        return any(self.contains_throwing_call(c) for c in inner(n))
+
+    def exc_check(self, n, ind, fn):
+        k = n['kind']
+        p = '  ' * ind
+        if k == 'IfStmt':
+            parts = [c for c in (n.get('inner') or []) if isinstance(c, dict)]
+            if not n.get('isConstexpr') and self.contains_throwing_call(parts[1 if n.get('hasInit') else 0]):
+                raise ExtractError('L-throw: call in the condition of an if statement')
+            return ''
+        if k == 'ReturnStmt' or not self.contains_throwing_call(n):
+            return ''
+        self.lowerings['L-throw(leave the function when a callee has thrown: guards constructed so far run)'] += 1
+        out = p + 'if (g_exc)\n' + p + '{\n' + self.dtor_calls(fn, ind + 1)
+        rt = self.ret_cxx(fn)
+        if rt[0] == 'n' and rt[1] == 'void':
+            out += p + '  return;\n'
+        elif self.returns_ref(fn):
+            out += p + '  return (void *)0;\n'
+        else:
+            out += p + '  { %s exc_ret_; return exc_ret_; }\n' % self.ct(T.type_str(T.strip_quals(rt)))
+        return out + p + '}\n'
+
+    def hoist(self, call):
+        """may the model of `call` emit statements before the current statement?  Only if the call is evaluated exactly once, before
+        anything else with an effect in that statement: every other call in the statement must be a pure range accessor"""
+        if getattr(self, 'pre_stmts', None) is None:
+            raise ExtractError('algorithm call in a position where its loop cannot be hoisted')
+        st = self.cur_stmt
+        if st['kind'] == 'IfStmt':
+            parts = [c for c in (st.get('inner') or []) if isinstance(c, dict)]
+            st = parts[1 if st.get('hasInit') else 0]
+        skip = id(call)
+
+        def walk(x):
+            if x is call:
+                return
+            if x.get('kind') in ('CallExpr', 'CXXMemberCallExpr', 'CXXOperatorCallExpr'):
+                nm = ''
+                c0 = inner(x)[0] if inner(x) else {}
+                while c0.get('kind') in ('ImplicitCastExpr', 'ParenExpr') and inner(c0):
+                    c0 = inner(c0)[0]
+                nm = c0.get('name') or (c0.get('referencedDecl') or {}).get('name') or ''
+                if nm not in ('begin', 'end', 'cbegin', 'cend', 'operator==', 'operator!='):
+                    raise ExtractError('algorithm call inside a larger expression with other calls (%s)' % nm)
+            if x.get('kind') in ('BinaryOperator',) and x.get('opcode') in ('&&', '||', ','):
+                raise ExtractError('algorithm call under a short-circuit operator')
+            if x.get('kind') == 'ConditionalOperator':
+                raise ExtractError('algorithm call under a conditional operator')
+            for c in inner(x):
+                walk(c)
+        walk(st)
+        return self.cur_fn_stmt, self.cur_ind
+
+    def S0(self, n, ind, fn):
         k = n['kind']
         ii = inner(n)
         p = '  ' * ind
@@ -858,11 +962,13 @@ class Emitter:
                 return d['name']
         return None
 
-    def loop_contract(self, fn, lv=''):
+    def loop_contract(self, fn, lv='', lr=''):
+        # lv: induction variable ($LV); lr: pointer to the modelled range the loop walks ($LR) - loop contracts written with these
+        # placeholders do not depend on how the loop is spelled (index loop, range-for, std::find_if, ...)
         self.loop_ordinal = getattr(self, 'loop_ordinal', {})
         o = self.loop_ordinal.get(fn['id'], 0)
         self.loop_ordinal[fn['id']] = o + 1
-        return '/*LOOP:%s:%d:%s*/\n' % (self.fname(fn), o, lv)
+        return '/*LOOP:%s:%d:%s:%s*/\n' % (self.fname(fn), o, lv, lr)
 
     def S_if(self, n, ind, fn):
         p = '  ' * ind
@@ -972,7 +1078,9 @@ class Emitter:
                 return p + '%s = %s;\n' % (self.cdecl(self.ctype_of(t), name), v)
             try:
                 return p + '%s = %s;\n' % (self.cdecl(self.ctype_of(t), name), self.E(init))
-            except ExtractError:
+            except ExtractError as ex:
+                if not d.get('constexpr'):
+                    raise       # a const local with a run-time initialiser: the initialiser itself is what cannot be extracted
                 self.unavailable = getattr(self, 'unavailable', set())
                 self.unavailable.add(d['id'])
                 return p + '/* const(expr) %s: initialiser is compile-time only; any run-time use fails closed */\n' % name
